@@ -34,7 +34,8 @@ def standing_search(ctx):
     h2, n2 = enccorr.monitor_rotation(ctx, "C06")
     h3, n3 = enccorr.monitor_shared(ctx, "C06")
     h4, n4 = enccorr.monitor_receive_paths(ctx, "C06")
-    hits, n = hits + h2 + h3 + h4, n + n2 + n3 + n4
+    h5, n5 = enccorr.monitor_shared_headers(ctx, "C06")
+    hits, n = hits + h2 + h3 + h4 + h5, n + n2 + n3 + n4 + n5
     LAST_SEARCH_CANDIDATES = n
     seen, out = set(), []
     for h in hits:
@@ -119,6 +120,9 @@ def replay(rp):
     if rp.get("kind") == "rotation":
         import enccorr
         return enccorr.replay_rotation(rp)
+    if rp.get("kind") == "shared-headers":
+        import enccorr
+        return enccorr.replay_shared_headers(rp)
     if rp.get("kind") == "encoder-history":
         import enccorr
         return enccorr.replay_shared(rp)
